@@ -276,14 +276,15 @@ theorem C01_spellings_first (t : Val) (hroot : (∃ cls kvs, t = .dict cls kvs) 
     (hget : stepsGet t steps = some c) (fuel : Nat) (hf : fuel ≥ 2 * steps.length) :
     ((∀ cl x, c ≠ .list cl [x]) → first fuel t (renderSp lead steps) d = (t, .ok c)) ∧
     (∀ cl x, c = .list cl [x] → first fuel t (renderSp lead steps) d = (t, .ok x)) := by
-  have hcore : getCore fuel t (renderSp lead steps) d false false = (t, .ok c) := by
+  have hcore : ∀ d, getCore fuel t (renderSp lead steps) d false false = (t, .ok c) := by
+    intro d
     rcases hroot with ⟨cls, kvs, rfl⟩ | ⟨cls, xs, rfl⟩
     · exact getCore_spelling_dict fuel cls kvs lead steps c d false false hp hne hget hf
     · exact getCore_spelling_list fuel cls xs lead steps c d false false hp hne hget hf
-  refine ⟨fun hc => first_of_getCore hcore hc, ?_⟩
+  refine ⟨fun hc => first_of_getCore hcore hc d, ?_⟩
   intro cl x hcx
   subst hcx
-  exact first_of_getCore_single hcore
+  exact first_of_getCore_single hcore d
 
 /-- **C01 (headline, `first`).**  Every enumerated pair of a dict-rooted tree with plain keys also
 resolves through `first` (a leaf is a scalar, so nothing is unwrapped). -/
@@ -305,10 +306,10 @@ theorem C01_resolves_first (cls : Cls) (kvs : List (Str × Val)) (ht : PlainTree
   have hs := spells_merged p (.dict cls kvs) c hpp.1 hg
   have hlen := mergedToks_length_le p
   have htok : tokenize (slash ++ renderPos p) = mergedToks p := tokenize_render p hpp.1
-  have hcore : getCore fuel (.dict cls kvs) (slash ++ renderPos p) d false false = (.dict cls kvs, .ok c) :=
-    getCore_dict_path fuel cls kvs _ d false false p c (by simp [slash, startsWith]) (by simp [hasPathChar, slash])
+  have hcore : ∀ d, getCore fuel (.dict cls kvs) (slash ++ renderPos p) d false false = (.dict cls kvs, .ok c) :=
+    fun d => getCore_dict_path fuel cls kvs _ d false false p c (by simp [slash, startsWith]) (by simp [hasPathChar, slash])
       (by rw [htok]; exact hs) (by rw [htok]; exact mergedToks_ne_nil p hpp.2) (by rw [htok]; omega)
-  refine first_of_getCore hcore ?_
+  refine first_of_getCore hcore ?_ d
   intro cl x hcx
   subst hcx
   simp [Val.isScalar] at hsc
@@ -316,21 +317,21 @@ theorem C01_resolves_first (cls : Cls) (kvs : List (Str × Val)) (ht : PlainTree
 /-- **C01 (an out-of-range index is a miss).**  `stepsMiss t steps`: the steps walk along existing
 nodes and then index a list out of range (Python indexing would raise IndexError there, in any
 of the index spellings; whatever follows).  Then, in every spelling and on both roots, item access
-raises IndexError, `get` returns the default, `first` returns the default (unwrapped if it is a
-one-element list — `first` does that to whatever `_get` gives), and the tree is unchanged. -/
+raises IndexError, `get` returns the default, `first` returns the default — as it is, whatever value it is
+(since fix C04-f `first` unwraps only a found value) — and the tree is unchanged. -/
 theorem C01_out_of_range_miss (t : Val) (hroot : (∃ cls kvs, t = .dict cls kvs) ∨ (∃ cls xs, t = .list cls xs))
     (lead : Lead) (steps : List StepSp) (d : Val) (hp : PlainSteps steps)
     (hmiss : stepsMiss t steps = true) (fuel : Nat) (hf : fuel ≥ 2 * steps.length) :
     getItem fuel t (renderSp lead steps) = (t, .error .IndexError) ∧
     get fuel t (renderSp lead steps) d = (t, .ok d) ∧
-    ((∀ cl x, d ≠ .list cl [x]) → first fuel t (renderSp lead steps) d = (t, .ok d)) := by
+    first fuel t (renderSp lead steps) d = (t, .ok d) := by
   have hcore : ∀ (d : Val) (raise rl : Bool),
       getCore fuel t (renderSp lead steps) d raise rl = missResult t d raise := by
     intro d raise rl
     rcases hroot with ⟨cls, kvs, rfl⟩ | ⟨cls, xs, rfl⟩
     · exact getCore_miss_dict fuel cls kvs lead steps d raise rl hp hmiss hf
     · exact getCore_miss_list fuel cls xs lead steps d raise rl hp hmiss hf
-  refine ⟨?_, ?_, fun hd => first_of_getCore ?_ hd⟩
+  refine ⟨?_, ?_, first_of_miss (fun d' => ?_) d⟩
   · rw [getItem, hcore]; rfl
   · rw [XPath.get, hcore]; rfl
   · rw [hcore]; rfl
